@@ -16,7 +16,7 @@ RULE = ('Hypothesis draws (direction forward/inverse, filter pair, J in 1..3, H,
         'every input in the subset (never None); two unbatched N=1 VJPs with dense cotangents cross-check the batching. '
         'Non-trivial = non-default layout or a mask or a proper grad subset or J>=2. Distinct = configuration without seeds.')
 ASSUMPTIONS = ['the forward pass itself (no hand-written backward involved) defines the function whose adjoint is demanded',
-               'tolerance 1e-9*max(1,gain) float64']
+               'tolerance 1e-11*max(1,gain) float64']
 STRATA = {'thorough': 'all 24 filter pairs x both directions; all 132 layout pairs x both directions', 'quick': ''}
 LABEL_FLOORS = {'inverse': 0.35, 'forward': 0.35, 'nondefault_layout': 0.4}
 
@@ -157,7 +157,7 @@ def _forward(case, r, nondefault):
         A = _flat(_outs(core.libcall(fwd, torch.tensor(dwtu.basis([H, W])[:, None])), skip, scl, case['o_dim'], case['ri_dim'])).numpy()  # (n_in,total)
     total = A.shape[1]
     g = core.gain(A)
-    tol = 1e-9 * max(1.0, g)
+    tol = core.TOL64 * max(1.0, g)
     C, full = dwtu.basis_rows(total, case['k'], cap=640, sub=64)        # cotangents (K,total)
     r.label('full_jacobian' if full else 'jacobian_row_subset')
     K = C.shape[0]
@@ -179,7 +179,7 @@ def _forward(case, r, nondefault):
     ok, Gb = lib(torch.autograd.grad, F, X, -2.0 * ct, allow_unused=True)
     if not ok:
         return r.fail('second_backward_raise:' + Gb.bucket, 'a second backward pass through the same graph raised: %s' % Gb)
-    if G[0] is not None and (Gb[0] is None or float((Gb[0] + 2.0 * G[0]).abs().max()) > 1e-9 * max(float(G[0].abs().max()), 1e-300)):
+    if G[0] is not None and (Gb[0] is None or float((Gb[0] + 2.0 * G[0]).abs().max()) > core.TOL64 * max(float(G[0].abs().max()), 1e-300)):
         return r.fail('second_backward_differs', 'pulling back -2g through the same graph is not -2 x the pull-back of g')
     if G[0] is None:
         return r.fail('none_grad', 'input received no gradient')
@@ -197,7 +197,7 @@ def _forward(case, r, nondefault):
     gv = core.make(case['rg'], [1, total])
     G1, = torch.autograd.grad(F1, x1, torch.tensor(gv))
     want1 = (gv @ A.T).reshape(-1)
-    tol1 = 1e-9 * max(g * core.maxabs(gv), 1e-300)
+    tol1 = core.TOL64 * max(g * core.maxabs(gv), 1e-300)
     okc, err = core.close(G1.numpy().reshape(-1), want1, tol1)
     if not okc:
         r.fail('forward_vjp_unbatched', 'N=1 backward is not J^T g: ' + core.first_mismatch(G1.numpy().reshape(-1), want1, tol1))
@@ -270,7 +270,7 @@ def _inverse(case, r, nondefault):
         out_shape = tuple(out.shape[2:])
     n_out = S.shape[1]
     g = core.gain(S.T)
-    tol = 1e-9 * max(1.0, g)
+    tol = core.TOL64 * max(1.0, g)
     Cg, full = dwtu.basis_rows(n_out, case['k'], cap=640, sub=64)
     r.label('full_jacobian' if full else 'jacobian_row_subset')
     K = Cg.shape[0]
@@ -297,7 +297,7 @@ def _inverse(case, r, nondefault):
         if not ok2:
             return r.fail('second_backward_raise:' + Gb.bucket, 'a second backward pass through the same graph raised: %s' % Gb)
         for g1_, g2_ in zip(G, Gb):
-            if g1_ is not None and (g2_ is None or float((g2_ + 2.0 * g1_).abs().max()) > 1e-9 * max(float(g1_.abs().max()), 1e-300)):
+            if g1_ is not None and (g2_ is None or float((g2_ + 2.0 * g1_).abs().max()) > core.TOL64 * max(float(g1_.abs().max()), 1e-300)):
                 return r.fail('second_backward_differs', 'pulling back -2g through the same graph is not -2 x the pull-back of g')
     if not ok:
         return r.fail('backward_raise:' + G.bucket, 'backward raised (subset %s): %s' % (sub, G))
@@ -328,7 +328,7 @@ def _inverse(case, r, nondefault):
         if k != 'low':
             gk = canon(gk, o, ri)
         want = (gv @ S[offs[k]:offs[k] + sizes[k], :].T).reshape(-1)
-        tol1 = 1e-9 * max(g * core.maxabs(gv), 1e-300)
+        tol1 = core.TOL64 * max(g * core.maxabs(gv), 1e-300)
         okc, err = core.close(gk.numpy().reshape(-1), want, tol1)
         if not okc:
             r.fail('inverse_vjp_unbatched', 'N=1 gradient of %s is not S^T g: %s' % (
